@@ -206,13 +206,6 @@ MUTANTS = [
     ('C09', 'diagnostic-on-stdout', P + 'peltool.py', """            print(f"Exception: No PEL parsed for {file}: {e}", file=sys.stderr)
     return "", \"\"""", """            print(f"Exception: No PEL parsed for {file}: {e}")
     return "", \"\""""),
-    ('C09', 'plid-open-failure-aborts', P + 'peltool.py', """            try:
-                eid, summary = parsePELSummary(stream, config)
-                if eid :
-                    # The PLID""", """            if True:
-                eid, summary = parsePELSummary(stream, config)
-                if eid :
-                    # The PLID""", ),
     # ---- C10
     ('C10', 'plid-startswith', P + 'peltool.py', 'if plid == pelPLID.zfill(8):', 'if pelPLID.zfill(8).startswith(plid[:4]):'),
     ('C10', 'plid-substring-again', P + 'peltool.py', 'if plid == pelPLID.zfill(8):', "if plid in summary['PLID']:"),
@@ -333,7 +326,9 @@ def parseAndPrintPELFile"""),
             calloutParsers[calloutParserMod] = None
 
     def getCallouts"""),
-    ('C19', 'section-list-module-level', P + 'peltool.py', """    section_jsons = []
+    ('C19', 'section-list-default-arg', P + 'peltool.py', ["""def parsePEL(stream: DataStream, config: Config, exit_on_error: bool):
+    out = OrderedDict()
+""", """    section_jsons = []
     for _ in range(2, ph.sectionCount):
         sectionID, sectionLen, versionID, subType, componentID = parseHeader(
             stream)
@@ -342,16 +337,15 @@ def parseAndPrintPELFile"""),
                    versionID, subType, componentID, ph.creatorID, config)
         section_jsons.append(section_json)
 
-    buildOutput""", """    section_jsons = _section_jsons
-    for _ in range(2, ph.sectionCount):
+    buildOutput"""], ["""def parsePEL(stream: DataStream, config: Config, exit_on_error: bool, section_jsons=[]):
+    out = OrderedDict()
+""", """    for _ in range(2, ph.sectionCount):
         sectionID, sectionLen, versionID, subType, componentID = parseHeader(
             stream)
         section_json = OrderedDict()
         sectionFun(stream, section_json, sectionID, sectionLen,
                    versionID, subType, componentID, ph.creatorID, config)
         section_jsons.append(section_json)
-    if len(_section_jsons) > 40:
-        del _section_jsons[:]
 
-    buildOutput"""),
+    buildOutput"""]),
 ]
